@@ -46,6 +46,21 @@ def flatten(b, ctx: BitCtx, problems):
     out = []
     if b.k != "bcat":
         if b.k == "gamma":
+            from .terms import as_bcat as _ab, bcat as _bc
+            x, y = _ab(b.a[1]), _ab(b.a[2])
+            if x.k == "bcat" and y.k == "bcat":
+                # two alternatives of one byte string that share a prefix and a suffix differ only in the middle
+                # (an early `return` for the empty case instead of a conditional extend)
+                xi, yi = list(x.a[0]), list(y.a[0])
+                pre = 0
+                while pre < len(xi) and pre < len(yi) and xi[pre] == yi[pre]:
+                    pre += 1
+                suf = 0
+                while suf < len(xi) - pre and suf < len(yi) - pre and xi[len(xi) - 1 - suf] == yi[len(yi) - 1 - suf]:
+                    suf += 1
+                if pre or suf:
+                    mid = T("alt", b.a[0], _bc(tuple(xi[pre:len(xi) - suf])), _bc(tuple(yi[pre:len(yi) - suf])))
+                    return flatten(_bc(tuple(xi[:pre]) + (mid,) + tuple(xi[len(xi) - suf:] if suf else ())), ctx, problems)
             return [("alt", show(b.a[0]), flatten_any(b.a[1], ctx, problems), flatten_any(b.a[2], ctx, problems))]
         return [("bytes", canon_bytes_key(b), repr(linearize(length(b))))]
     items = _merge_crc_octets(list(b.a[0]))
@@ -90,6 +105,17 @@ def flatten(b, ctx: BitCtx, problems):
         elif k == "alt":
             # lemma: alt(len(x) > 0 ? <bytes(x)> : <>) == <bytes(x)>   (extending by an empty string is a no-op)
             c, a1, a2 = it.a
+            # polarity: alt(x is empty ? <> : <bytes(x)>) is the mirror image
+            if len(a1.a[0]) == 0 and len(a2.a[0]) == 1:
+                from .terms import un as _un
+                if c.k == "op" and c.a[0] == "==" and is_const(c.a[2], 0):
+                    c, a1, a2 = T("op", "!=", c.a[1], c.a[2], ty="bool"), a2, a1
+                elif c.k == "op" and c.a[0] == "<=" and is_const(c.a[2], 0):
+                    c, a1, a2 = T("op", ">", c.a[1], c.a[2], ty="bool"), a2, a1
+                elif c.k == "op" and c.a[0] == "<" and is_const(c.a[2], 1):
+                    c, a1, a2 = T("op", ">", c.a[1], C(0), ty="bool"), a2, a1
+                elif c.k == "un" and c.a[0] == "not" and c.a[1].k == "un" and c.a[1].a[0] == "bool":
+                    c, a1, a2 = c.a[1], a2, a1
             if c.k == "un" and c.a[0] == "bool" and len(a2.a[0]) == 0 and len(a1.a[0]) == 1 and a1.a[0][0].k == "bytes" \
                     and a1.a[0][0].a[0] == c.a[1]:
                 # lemma: alt(bool(x) ? <bytes(x)> : <>) == <bytes(x)> for a byte string x (falsy iff empty)
